@@ -339,6 +339,12 @@ def step (line : String) : String :=
         | none => "READERR"
         | some y => s!"{y.entryId}|{y.qid}|{y.rid}|{y.qStart}|{y.qEnd}|{y.rStart}|{y.rEnd}|{if y.rev then 1 else 0}|{y.conf100}|{y.hitEnum}|{y.qLen}|{y.rLen}|{showBPairs y.pairs}"
       x.line.replace "\t" "|" ++ " READ " ++ rd
+    | "DEFAULTS" =>
+      let P := defaultParams
+      let s : SecCfg := {}
+      let c : ChainCfg := {}
+      let g : Cfg := { P := P }
+      s!"sp={P.sp} dp={P.dp} su={P.su} md={P.md} ms={P.minScore} bs={P.bst} r2={s.res} b2={s.blur} ma={s.margin} pt={showRat s.thr} keep={s.keep} sj={showRat c.mult} ss={c.variant} diff={g.maxDifference}"
     | "HEADER" =>
       "\\n".intercalate ((xmapHeader (kv.get "ref") (kv.get "qry")).map fun l => l.replace "\t" "|")
     | "COMPARE" =>
